@@ -540,7 +540,8 @@ class NumpyCodegenMapper(CachedMapper[str, Never, []]):
                         args=[ast.Name(self.rec(expr.array)),
                               ast.Tuple(elts=[_constant(d)
                                               for d in expr.shape])],
-                       keywords=[],
+                       keywords=[ast.keyword(arg="order",
+                                             value=_constant(expr.order))],
                        )
 
         return self._record_line_and_return_lhs(lhs, rhs)
